@@ -555,14 +555,29 @@ func TestVerif_C14_TCPPacketConn(t *testing.T) {
 			rt.Fatalf("harness: AddConn: %v", err)
 		}
 		big := false
+		shortReads := 0
 		for i, want := range expectIn {
 			buf := make([]byte, receiveMTU)
+			// sometimes the caller's buffer is shorter than the packet although its capacity is not
+			if len(want) > 0 && rapid.IntRange(0, 5).Draw(rt, "shortReadBuffer") == 0 {
+				l := rapid.IntRange(0, len(want)-1).Draw(rt, "bufLen")
+				buf = make([]byte, l, l+rapid.SampledFrom([]int{0, 1, len(want) - l, receiveMTU}).Draw(rt, "bufExtraCap"))
+			}
 			ctx, cancel := context.WithTimeout(context.Background(), 20*time.Second)
 			n, addr, err := pc.readFromContext(ctx, buf)
 			cancel()
 			if errors.Is(err, context.DeadlineExceeded) {
 				st.Inconclusive()
 				rt.Fatalf("VERIF-INCONCLUSIVE: ReadFrom did not deliver packet %d within 20 s", i)
+			}
+			if len(buf) < len(want) {
+				// a packet larger than the reader's buffer yields an error, never a truncated packet
+				shortReads++
+				if err == nil || n != 0 {
+					st.Fail(rt, "C14/tcppacketconn/short-buffer-accepted", "packet %d of %d bytes read into a buffer of len %d cap %d: n=%d err=%v (want an error)", i, len(want), len(buf), cap(buf), n, err)
+				}
+
+				continue
 			}
 			if err != nil || n != len(want) || !bytes.Equal(buf[:n], want) {
 				st.Fail(rt, "C14/tcppacketconn/read", "packet %d: n=%d err=%v want len %d", i, n, err, len(want))
@@ -617,7 +632,7 @@ func TestVerif_C14_TCPPacketConn(t *testing.T) {
 			}
 			st.Fail(rt, sig, "writeBuffer=%d: wire has frames %v (+%d stray bytes), want %v + sentinel", writeBuf, lens, len(rest), wl)
 		}
-		labels := []string{fmt.Sprintf("writeBuffer:%v", writeBuf > 0)}
+		labels := []string{fmt.Sprintf("writeBuffer:%v", writeBuf > 0), fmt.Sprintf("short-read-buffer:%v", shortReads > 0)}
 		if big {
 			labels = append(labels, "outbound>=MTU-1")
 		}
